@@ -15,12 +15,12 @@ RULE = ('pages of 1-4 blocks (rectangles / polygons inside the page) x 1-5 lines
         'Arabic words mixed; separators single / double / leading / trailing U+0020, NBSP, tab, thin space, ideographic space and mixtures; posteriors peaky, noisy, '
         'diffuse, too short to align, absent, unknown frame window, transformer-shaped; min_line_confidence in {0, 0.3, 0.99}; for the order conversion strings of '
         'tokens {Arabic word, Latin word, number, delimiter, Arabic delimiter, blank, bracket}. non-trivial = page with a multi-word line; distinct = hash of the page description')
-ASSUMPTIONS = ['"recognised page": every line has baseline (>= 40 px long, slope within +-10 deg), polygon, positive heights, and lies inside its block; blocks lie inside the page',
+ASSUMPTIONS = ['"recognised page": every line has baseline (2 px .. block width, slope within +-10 deg), polygon, positive heights, and lies inside its block; blocks lie inside the page',
                'logits and character table are both present or both absent', 'expected words on Arabic lines use the repository\'s own order conversion (itself checked for permutation and involution)',
                'ALTO TextLine elements carry no id: lines are matched by order within their block']
 N = {'quick': 800, 'thorough': 40000}
-CLASSES = ['page', 'page', 'page_whitespace', 'page_arabic', 'page_conf', 'order_conversion']
-REQUIRED = ['exports', 'lines_expected', 'aligned_lines', 'fallback_lines', 'words_compared', 'nonascii_space_lines', 'arabic_lines', 'arabic_fallback_lines', 'dropped_lines',
+CLASSES = ['page', 'page', 'page_whitespace', 'page_arabic', 'page_conf', 'order_conversion', 'page_short_lines']
+REQUIRED = ['short_baseline_lines', 'exports', 'lines_expected', 'aligned_lines', 'fallback_lines', 'words_compared', 'nonascii_space_lines', 'arabic_lines', 'arabic_fallback_lines', 'dropped_lines',
             'printspace_checked', 'reimports', 'conversions_checked']
 NS = '{http://www.loc.gov/standards/alto/ns-v2#}'
 CH = list("abcdefgh.,-") + [' '] + list('ابتثج')
@@ -107,6 +107,10 @@ def gen(rng, i, ctx):
         for l in range(int(rng.integers(1, 6))):
             by = int(rng.integers(y0 + 45, y1 - 15))
             bl = [[x0 + 5, by], [(x0 + x1) // 2, by + int(rng.integers(-3, 4))], [x1 - 5, by + int(rng.integers(-5, 6))]]
+            if cls == 'page_short_lines' and rng.random() < 0.6:
+                # a very short baseline (a stray mark recognised as a line): 2-12 px, two points
+                xs = x0 + 5 + int(rng.integers(0, 100))
+                bl = [[xs, by], [xs + int(rng.integers(2, 13)), by + int(rng.integers(-1, 2))]]
             h = [float(rng.uniform(10, 30)), float(rng.uniform(3, 10))]
             pg = [[x0 + 5, by - h[0]], [x1 - 5, by - h[0]], [x1 - 5, by + h[1]], [x0 + 5, by + h[1]]]
             script = 'arabic' if cls == 'page_arabic' else str(rng.choice(['latin', 'latin', 'latin', 'arabic']))
@@ -229,6 +233,8 @@ def check(case, mon, ctx):
                 continue
             lo = lines_obj[l['id']]
             mon.count('lines_expected')
+            if abs(l['baseline'][-1][0] - l['baseline'][0][0]) <= 12:
+                mon.count('short_baseline_lines')
             aligned = aligned_flags.get(l['id'], False)
             mon.count('aligned_lines' if aligned else 'fallback_lines')
             conf = lo.transcription_confidence
